@@ -453,6 +453,22 @@ def run(ctx):
             if diff:
                 ctx.violation('c04-xpc-vs-model', f'learn_xpc({cfg}): returned circuit differs from buildXpc of its own partition tree: {diff}', replay=rep, found_input=False)
                 continue
+            # the loop EXTRACTED from the current source (Gen.S5buildXpcStep, tools/listprog.py) run by the driver on the Partition objects of
+            # the same tree: implementation = generated = model (Oblig/Struct5Xpc.lean and Props/E2EXpc.lean are statements about that definition)
+            tag, emp, gtext = drv.ask(dict(op='s5_xpc', use_clt=use_clt, det=det, part=pj)).split(' ', 2)
+            ctx.count('xpc-generated-loop-runs')
+            if tag != 'welltagged=true' or emp != 'stackempty=true':
+                ctx.violation('c04-xpc-generated-loop', f'learn_xpc({cfg}): the loop extracted from build_xpc, run on the exported partition tree: {tag} {emp} '
+                                                        '(hypotheses / conclusion of e2e_build_xpc_loop)', replay=rep, found_input=False)
+                continue
+            if gtext != text:
+                ctx.violation('c04-xpc-generated-vs-model', f'learn_xpc({cfg}): the loop extracted from build_xpc differs from buildXpc on the partition tree\n'
+                                                            f' generated: {gtext[:300]}\n model    : {text[:300]}', replay=rep, found_input=False)
+                continue
+            diff = XD.compare(XD.parse_text(gtext), root)
+            if diff:
+                ctx.violation('c04-xpc-vs-generated', f'learn_xpc({cfg}): returned circuit differs from the loop extracted from build_xpc: {diff}', replay=rep, found_input=False)
+                continue
             if sd_eff:
                 a2 = drv.ask(dict(op='xpc_scopes', use_clt=use_clt, det=det, part=pj))
                 if not a2.startswith('laminar=true'):
